@@ -330,6 +330,8 @@ def _run_basis(case):
         _try(out, "rescale_s_g", lambda: resc(g, use_argvals_stand=True))
     _try(out, "cov_b", lambda: _lst(np.asarray(bf.covariance().to_grid().values[0]).reshape(-1)))
     _try(out, "cov_b_shape", lambda: list(bf.covariance().basis.values.shape))
+    _try(out, "cov_b_argvals", lambda: [np.asarray(v, dtype=float).tolist() for _, v in sorted(bf.covariance().to_grid().argvals.items())])
+    out["grid_argvals"] = [np.asarray(v, dtype=float).tolist() for _, v in sorted(g.argvals.items())]
     if not two:
         _try(out, "cov_g", lambda: _lst(g.covariance().values[0].reshape(-1)))
     # non-default options: the same option on both routes
@@ -848,6 +850,12 @@ def _oracle_basis(case, impl):
                 bad("covariance", "BasisFunctionalData.covariance", f"grid covariance failed: {cg}")
             elif not _near(np.array(cb), np.array(cg) * (N - 1) / N, lin * lin):
                 bad("covariance", "BasisFunctionalData.covariance", "covariance from the coefficients is not (n-1)/n × covariance of the curves")
+    axes = [fl(_Fv(case["t1"])), fl(_Fv(case["t2"]))] if two else [fl(_Fv(case["t"]))]
+    if impl.get("grid_argvals") != axes:
+        bad("to_grid", "BasisFunctionalData.to_grid", "to_grid() is not on the sampling points of the basis")
+    ca = impl.get("cov_b_argvals")
+    if isinstance(ca, list) and ca != [a for a in axes for _ in (0, 1)]:
+        bad("covariance", "BasisFunctionalData.covariance", "the covariance is not on the sampling points (t, t) / (t1, t1, t2, t2)", ["covariance_layout_2d"] if two else [])
     # standardisation (zero-variance points are a float artefact on the grid route: excluded)
     sb, sg = impl.get("standardize_b"), impl.get("standardize_g")
     if isinstance(sb, str) or isinstance(sg, str):
